@@ -1,0 +1,9 @@
+//go:build verif
+
+package keystore
+
+// VerifImportClientIDSymmetricKey runs the "open ring, add key, make it current" sequence
+// used by every key generation/import with caller-chosen key bytes (verification hook).
+func (s *ServerKeyStore) VerifImportClientIDSymmetricKey(clientID, key []byte) error {
+	return s.importClientIDSymmetricKey(clientID, key)
+}
